@@ -552,6 +552,68 @@ func productionConfig() {
 	}
 }
 
+// guardianSets: the watcher also feeds the processor's guardian-set channel (fetched at start and every 15 s). What
+// it delivers is a VALUE: the set with the chain's current index and keys at that time; an object that was
+// delivered must not change when a later fetch sees a rotated set (the processor keeps it as the snapshot of
+// pending messages).
+func guardianSets() {
+	for _, rotations := range []int{1, 2, 3} {
+		c := ethh.NewChain(100)
+		d := ethh.NewDriver(c, true, false)
+		d.Quiesce()
+		type snap struct {
+			p     *nodecommon.GuardianSet
+			index uint32
+			keys  []common.Address
+		}
+		var got []snap
+		take := func() {
+			for {
+				select {
+				case gs := <-d.SetC:
+					got = append(got, snap{gs, gs.Index, append([]common.Address{}, gs.Keys...)})
+				default:
+					return
+				}
+			}
+		}
+		take()
+		for i := 0; i < rotations; i++ {
+			c.Rotate()
+			if !d.GuardianSetTick() {
+				ev.Broken("guardian-set ticker not found")
+			}
+			take()
+			d.GuardianSetTick() // a round without a change delivers nothing new
+			take()
+		}
+		d.Close()
+		r.Add("guardian_set_deliveries_checked", len(got))
+		rec := map[string]interface{}{"rotations": rotations, "deliveries": len(got)}
+		if len(got) != rotations+1 {
+			r.Violation("guardian sets: the watcher does not deliver exactly one set per change on chain", fmt.Sprintf("%d rotations, %d deliveries", rotations, len(got)), rec)
+			continue
+		}
+		for i, s := range got {
+			want := ethh.GuardianKeys(uint32(i))
+			same := s.p.Index == s.index && len(s.p.Keys) == len(s.keys)
+			for k := 0; same && k < len(s.keys); k++ {
+				same = s.p.Keys[k] == s.keys[k]
+			}
+			if !same {
+				r.Violation("guardian sets: a delivered guardian set changed after a later fetch (the processor keeps it as the snapshot of pending messages)", fmt.Sprintf("delivery %d was index %d, is now index %d", i, s.index, s.p.Index), rec)
+			}
+			ok := s.index == uint32(i) && len(s.keys) == len(want)
+			for k := 0; ok && k < len(want); k++ {
+				ok = s.keys[k] == want[k]
+			}
+			if !ok {
+				r.Violation("guardian sets: a delivered set is not the chain's set of that index", fmt.Sprintf("delivery %d: index %d", i, s.index), rec)
+			}
+		}
+	}
+}
+
 func menu() []step {
 	m := []step{{Op: "poll"}, {Op: "reobs", Tx: 1}, {Op: "head+", N: 1}, {Op: "head+", N: 61}, {Op: "drop", Tx: 1}, {Op: "status0", Tx: 1},
 		{Op: "remine", Tx: 1, Block: 103, Fork: 2, Logs: []ethh.LogSpec{{Address: ethh.Core, Topic: "published", Seq: 5, CL: 1}}}, {Op: "restart"}, {Op: "release"}, {Op: "final+"}}
@@ -601,6 +663,7 @@ func main() {
 	if !worker {
 		r.Set("base_scenarios", len(bs))
 		productionConfig()
+		guardianSets()
 		r.Fork(0, nil, r.CrashViolation)
 		r.Set("rule", "states = executions of the real watcher, transitions = stimuli; histories are not merged (poller and subscription state are goroutine-local); every history within the edit bound around every base scenario is run in full, followed by the fair closing schedule (head + level+1 and a poll, then three times head +1 and a poll)")
 		r.Assume("the simulated node applies the subscription filter as a real node does (only logs matching address and topic are pushed); receipts carry all logs of the transaction")
